@@ -333,6 +333,10 @@ class World:
         raise Unsupported(f"attribute {attr} of number at line {line}")
 
     def special_getattr(self, ex, st, base, attr, line):
+        import re as _re
+
+        if isinstance(base, _re.Pattern) and attr in ("match", "fullmatch", "search"):
+            return PatternMethod(base, attr)
         if isinstance(base, ExcVal):
             return NotImplemented
         if isinstance(base, types.FunctionType) or isinstance(base, BoundMethod):
@@ -445,6 +449,21 @@ class World:
 
     # ------------------------------------------------------------------ calls
     def call(self, ex, st, fn, args, kw, line, owner=None):
+        if isinstance(fn, PatternMethod):
+            from . import strings
+
+            text = args[0]
+            if isinstance(text, strings.CharStr):
+                self.assumed_used.add("re (A-RE: match structure depends only on the shape; real engine run on a representative)")
+                yield from strings.do_match(ex, st, fn.pattern, text, line, fn.kind)
+                return
+            if isinstance(text, str):
+                yield st, getattr(fn.pattern, fn.kind)(text)
+                return
+            raise Unsupported(f"regex match on {type(text).__name__} at line {line}")
+        if isinstance(fn, types.MethodType) and type(fn.__self__).__module__.startswith("pyvc."):
+            yield st, fn(*args, **kw)
+            return
         if isinstance(fn, NewOf):
             h = self.new_handlers.get(fn.owner)
             if h is None:
@@ -929,12 +948,21 @@ class World:
         pass
 
     def sym_format(self, x, fv):
+        from . import strings
+
         spec_ = ""
         if fv is not None and getattr(fv, "format_spec", None) is not None:
             spec_ = "".join(c.value for c in fv.format_spec.values if isinstance(c, ast.Constant))
+        if isinstance(x, strings.CharStr):
+            return strings.format_spec(x, spec_)
         return SymStr([("fmt", x, spec_)])
 
     def sym_concat(self, parts):
+        from . import strings
+
+        c = strings.concat(parts)
+        if c is not None:
+            return c
         out = []
         for p in parts:
             if isinstance(p, SymStr):
@@ -944,8 +972,16 @@ class World:
         return SymStr(out)
 
     def symstr_compare(self, op, a, b, line):
+        from . import strings
         from .stdlib import YearMonthStr
 
+        if isinstance(a, strings.CharStr) or isinstance(b, strings.CharStr):
+            r = strings.equal(a, b) if (strings.as_charstr(a) is not None and strings.as_charstr(b) is not None) else False
+            if isinstance(op, ast.Eq):
+                return r
+            if isinstance(op, ast.NotEq):
+                return sym.Not(r)
+            raise Unsupported(f"ordering of symbolic strings at line {line}")
         if isinstance(a, YearMonthStr) and isinstance(b, YearMonthStr):
             r = sym.And(sym.eq(a.year, b.year), sym.eq(a.month, b.month))
             if isinstance(op, ast.Eq):
@@ -979,6 +1015,11 @@ class World:
     def name_is(self, sn, s):
         tok = self._name_tokens.setdefault(s, -1 - len(self._name_tokens))
         return sym.eq(sn.tok, tok)
+
+
+class PatternMethod:
+    def __init__(self, pattern, kind):
+        self.pattern, self.kind = pattern, kind
 
 
 class NewOf:
